@@ -17,7 +17,7 @@ BOUNDS = {
     'quick': 'input length N in 0..6; len(out) in N-2..N+2 (>=0); initial,final in {F,T}^2; element values and offset '
              'unbounded symbolic (Int, or Real for the float pairing); pairings int64->int64, uint32->uint64, '
              'int64->float64, float64->float64, python list input (N>=1: numba cannot type an empty list)',
-    'thorough': 'as quick with N in 0..12',
+    'thorough': 'as quick with N in 0..64 for every pairing',
 }
 OUTSIDE = 'N above the bound; wrap-around of the 64-bit accumulator (mathematical integers); float rounding (real model)'
 STUBS = []
@@ -38,7 +38,7 @@ PAIRINGS = {
 
 
 def items(tier, seed):
-    nmax = 6 if tier == 'quick' else 12
+    nmax = 6 if tier == 'quick' else 64
     out = []
     for pairing in PAIRINGS:
         for N in range(nmax + 1):
